@@ -396,7 +396,9 @@ def strategy():
     nmax = int(param("max_actors", 8))
     return st.fixed_dictionaries({
         "phase1": st.lists(run1, min_size=0, max_size=6),
-        "phase2": st.lists(act2, min_size=2, max_size=nmax),
+        # (explicit size draw: st.lists alone is heavily biased towards min_size)
+        "phase2": st.sampled_from([2, 2, 3, 4, 5, 6, 8][:max(1, nmax - 1)]).flatmap(
+            lambda n: st.lists(act2, min_size=min(n, nmax), max_size=min(n, nmax))),
         "exits": st.sampled_from(["fast", "fast", "any"]),
         "mfront2": st.booleans(),
         "mfront2_dwell_us": dwell,
